@@ -5,6 +5,7 @@ n_procs in {1,2,3,4,8} with an evaluation wrapper that sleeps a seeded 0-30 ms p
 completion orders that actually occurred are recorded.  Verdict: dict equality (NaN == NaN, 1e-9) against run_contingency and
 across n_procs.  A child that exceeds the wall-clock budget is killed and the case skipped (never a violation)."""
 import copy
+import gc
 import json
 import multiprocessing as mp
 import os
@@ -26,19 +27,19 @@ READY = True
 LEVEL = "fault_enumeration"
 TECHNIQUE = ("runtime monitoring: returned dicts of run_contingency_parallel under seeded schedule perturbation (n_procs x delay "
              "seeds, observed completion orders logged) compared with run_contingency")
-CASES = {"quick": 128, "thorough": 3000}
+CASES = {"quick": 40, "thorough": 1000}       # a case costs 8-25 CPU-s: every pool worker pays ~0.5 s after its fork
 BUDGET = {"quick": 60, "thorough": 1500}
-CASE_TIMEOUT = 150
-WATCHDOG = {"quick": 60, "thorough": 120}
-FLOORS = {"quick": {"nontrivial": 50, "max_skip_frac": 0.3,
-                    "tags": {"n_procs=8": 15, "n_procs=1": 60, "unwrapped_run": 60, "trafo_cases": 20, "unsolved_case": 3,
-                             "oos_element_in_case_list": 5},
-                    "extras": {"parallel_runs": 300, "runs_completed_out_of_task_order": 60, "runs_with_several_pids": 150,
-                               "dict_comparisons": 500}},
-          "thorough": {"nontrivial": 1200, "max_skip_frac": 0.3, "tags": {"n_procs=8": 400, "unsolved_case": 60},
-                       "extras": {"parallel_runs": 15000, "runs_completed_out_of_task_order": 3000, "distinct_orders_in_case": 5000}}}
-RULE = ("one case = one generated N-1 set-up (network, ratings, case dict, options as in C14, <= 8 outages in quick) x n_procs in "
-        "{1,2,3,4,8} (8 in 40 % of the cases) x seeded delay patterns (1 in quick, 3 in thorough) + one run with plain runpp; "
+CASE_TIMEOUT = 240
+WATCHDOG = {"quick": 90, "thorough": 180}
+FLOORS = {"quick": {"nontrivial": 15, "max_skip_frac": 0.3,
+                    "tags": {"n_procs=8": 3, "n_procs=1": 20, "unwrapped_run": 3, "trafo_cases": 10, "oos_element_in_case_list": 1},
+                    "extras": {"parallel_runs": 60, "runs_completed_out_of_task_order": 15, "runs_with_several_pids": 30,
+                               "dict_comparisons": 80, "distinct_orders_in_case": 40}},
+          "thorough": {"nontrivial": 300, "max_skip_frac": 0.3, "tags": {"n_procs=8": 100, "unsolved_case": 10, "unwrapped_run": 100},
+                       "extras": {"parallel_runs": 3000, "runs_completed_out_of_task_order": 800, "distinct_orders_in_case": 1500}}}
+RULE = ("one case = one generated N-1 set-up (network, ratings, case dict, options as in C14, <= 8 outages in quick) x n_procs = 1 "
+        "plus 2 (quick) / 3 (thorough) pool sizes drawn from {2,3,4,8} x seeded delay patterns (1 in quick, 2 in thorough), one "
+        "pool run with plain runpp in 30 % of the cases; "
         "non-trivial = >= 2 outages solved and >= 2 parallel runs returned; distinct = digest of net + cases + options + schedule")
 ASSUMPTIONS = ["schedules are perturbed by seeded sleeps inside the evaluation function; the completion orders that occurred are "
                "recorded as evidence, the verdict never uses wall-clock",
@@ -54,8 +55,20 @@ def _pack(res, net):
     return {"res": out, "in_service": ins}
 
 
+def setup(tier):
+    """warm the JIT once, then freeze the heap: garbage collections in the forked children / pool workers would otherwise
+    touch (and copy-on-write) every inherited page"""
+    import pandapower.networks as pn
+    n = pn.case9()
+    pp.runpp(n)
+    run_contingency(n, {"line": {"index": [1, 2]}})
+    gc.collect()
+    gc.freeze()
+
+
 def _child(net, cdict, kw, kw0, kw1, runs, wd, out_path):
     os.setsid()
+    gc.freeze()
     results = {}
     try:
         n = copy.deepcopy(net)
@@ -122,13 +135,20 @@ def run_case(seed, tier, case_no):
     kw = {}
     if g.B(0.3):
         kw["calculate_voltage_angles"] = g.B(0.7)
-    kw1 = {"trafo_loading": g.C(["current", "power"])} if g.B(0.2) else None
+    kw1 = {"trafo_loading": "power"} if g.B(0.35) else None      # N-1 option that differs from the N-0 default
     kw0 = {"trafo_model": g.C(["t", "pi"])} if g.B(0.1) else None
-    n_list = [1, 2, 3, 4] + ([8] if g.B(0.4) else [])
-    dseeds = [g.I(0, 10 ** 6) for _ in range(1 if tier == "quick" else 3)]
-    runs = [("p%d_d%d" % (n, k), n, True, d) for k, d in enumerate(dseeds) for n in n_list if not (n == 1 and k)]
-    runs.append(("p%d_plain" % g.C([2, 3, 4]), 0, False, 0))
-    runs[-1] = (runs[-1][0], int(runs[-1][0][1]), False, 0)
+    # every pool worker costs 1-3 CPU-s of copy-on-write faults after the fork: n_procs = 1 always, plus 2 (quick) or 3 (thorough)
+    # different pool sizes per case; one of the pool runs uses plain runpp with probability 0.3
+    k = 2 if tier == "quick" else 3
+    n_par = sorted(int(x) for x in g.rng.choice([2, 3, 4, 8], size=k, replace=False, p=[0.35, 0.3, 0.2, 0.15]))
+    dseeds = [g.I(0, 10 ** 6) for _ in range(1 if tier == "quick" else 2)]
+    runs = [("p1_d0", 1, True, dseeds[0])]
+    plain = n_par[g.I(0, k - 1)] if g.B(0.3) else None
+    for n in n_par:
+        if n == plain:
+            runs.append(("p%d_plain" % n, n, False, 0))
+        else:
+            runs += [("p%d_d%d" % (n, j), n, True, d) for j, d in enumerate(dseeds)]
     sample.update({"cases": cases, "kwargs": kw, "pf_options": kw0, "pf_options_nminus1": kw1, "runs": [r[:3] for r in runs]})
     digest = common.net_digest(net, {"c": cases, "o": [kw, kw0, kw1], "r": runs})
     before = copy.deepcopy(net)
